@@ -119,10 +119,22 @@ def scopes(mod):
 _fl_cache = {}
 
 
+def _rewritten(f):
+    """the function's tree is not its source text any more (new helpers read in place, sa/specialise.py): scopes and the
+    compiler's view are taken from the tree"""
+    return bool(getattr(f, 'inlined', None)) or f.qn.endswith('[specialised]')
+
+
 def fn_locals(f):
     c = _fl_cache.get(f.qn)
     if c is not None and c[0] is f:
         return c[1]
+    if _rewritten(f):
+        from .specialise import stores, _params
+        params = set(_params(f.node.args))
+        r = (set(stores(f.node)) - params, params)
+        _fl_cache[f.qn] = (f, r)
+        return r
     t = scopes(f.mod).function(f)
     if t is None:
         r = (set(), set())
@@ -326,6 +338,12 @@ def oracle(mod):
 
 
 def in_oracle(f, name):
+    if _rewritten(f):
+        try:
+            o = compiler_unbound(ast.unparse(f.node), '<rewritten>')
+        except SyntaxError:
+            return True
+        return any(nm == f.name and name in names for (nm, ln), names in o.items())
     o = oracle(f.mod)
     n = f.node
     lines = {n.lineno} | {d.lineno for d in getattr(n, 'decorator_list', [])}
@@ -488,6 +506,81 @@ def missing_self_methods(prog, f):
     return out
 
 
+def first_item_sentinel(fnode, v):
+    """The run-length idiom, checked as a shape:
+
+        L = None
+        for ...:
+            ...
+            if A == L:   <reads / updates V>
+            else:        ...; L = A; V = <start>
+        if L: <reads V>
+
+    V is bound by the first pass through the else arm, and the if arm can run before that only when A == None.  True when every
+    read of V in the function fits: inside the loop it is in the if arm (or after `V = ` in the else arm), outside the loop it is
+    under a truth test of L; L is bound nowhere else.  What remains to be known by reading is that the items are never None."""
+    own = []
+    stack = list(fnode.body)
+    while stack:
+        n = stack.pop()
+        own.append(n)
+        if isinstance(n, (ast.FunctionDef, ast.AsyncFunctionDef, ast.Lambda, ast.ClassDef)):
+            continue
+        stack.extend(ast.iter_child_nodes(n))
+    loops = [n for n in own if isinstance(n, ast.For)]
+    for loop in loops:
+        for st in loop.body:
+            if not (isinstance(st, ast.If) and isinstance(st.test, ast.Compare) and len(st.test.ops) == 1 and isinstance(st.test.ops[0], ast.Eq)
+                    and isinstance(st.test.left, ast.Name) and isinstance(st.test.comparators[0], ast.Name) and st.orelse):
+                continue
+            a, l = st.test.left.id, st.test.comparators[0].id
+            binds_l = [x for x in st.orelse if isinstance(x, ast.Assign) and len(x.targets) == 1 and isinstance(x.targets[0], ast.Name)
+                       and x.targets[0].id == l and isinstance(x.value, ast.Name) and x.value.id == a]
+            binds_v = [x for x in st.orelse if isinstance(x, ast.Assign) and len(x.targets) == 1 and isinstance(x.targets[0], ast.Name)
+                       and x.targets[0].id == v]
+            if not binds_l or not binds_v:
+                continue
+            # L: `L = None` ahead of the loop in the function body, `L = A` in the else arm, nothing else
+            l_stores = [x for x in own if isinstance(x, ast.Name) and x.id == l and isinstance(x.ctx, ast.Store)]
+            init = [x for x in fnode.body if isinstance(x, ast.Assign) and len(x.targets) == 1 and isinstance(x.targets[0], ast.Name)
+                    and x.targets[0].id == l and isinstance(x.value, ast.Constant) and x.value.value is None and x.lineno < loop.lineno]
+            if len(init) != 1 or len(l_stores) != 1 + len(binds_l) or len(binds_l) != 1:
+                continue
+            a_stores_after = [x for s2 in st.orelse for x in ast.walk(s2) if isinstance(x, ast.Name) and x.id == a and isinstance(x.ctx, ast.Store)]
+            if a_stores_after:
+                continue
+            in_if = {id(x) for s2 in st.body for x in ast.walk(s2)}
+            after_bind = set()
+            seen_bind = False
+            for s2 in st.orelse:
+                if seen_bind:
+                    after_bind |= {id(x) for x in ast.walk(s2)}
+                if s2 is binds_v[0]:
+                    seen_bind = True
+            in_loop = {id(x) for x in ast.walk(loop)}
+            # names that are None until some pass of this loop binds them: a truth test of one means the loop body has run, and
+            # its first pass took the else arm
+            sentinels = set()
+            for nm in {x.id for x in own if isinstance(x, ast.Name) and isinstance(x.ctx, ast.Store)}:
+                st_all = [x for x in own if isinstance(x, ast.Name) and x.id == nm and isinstance(x.ctx, ast.Store)]
+                ini = [x for x in fnode.body if isinstance(x, ast.Assign) and len(x.targets) == 1 and isinstance(x.targets[0], ast.Name)
+                       and x.targets[0].id == nm and isinstance(x.value, ast.Constant) and x.value.value is None and x.lineno < loop.lineno]
+                if len(ini) == 1 and all(id(x) in in_loop or x is ini[0].targets[0] for x in st_all) and len(st_all) > 1:
+                    sentinels.add(nm)
+            guarded = set()
+            for g in own:
+                if isinstance(g, ast.If) and isinstance(g.test, ast.Name) and g.test.id in sentinels:
+                    guarded |= {id(x) for s2 in g.body for x in ast.walk(s2)}
+            ok = True
+            for x in own:
+                if isinstance(x, ast.Name) and x.id == v and isinstance(x.ctx, ast.Load) or \
+                        (isinstance(x, ast.AugAssign) and isinstance(x.target, ast.Name) and x.target.id == v):
+                    ok = ok and (id(x) in guarded or (id(x) in in_loop and (id(x) in in_if or id(x) in after_bind)))
+            if ok:
+                return True
+    return False
+
+
 def run_ief(run, rule_prefix, roots, triage=None, noreturn=(), exclude_modules=(), use_cha=True, selfattr=False):
     """Evaluate the four IEF sub-rules on everything reachable from roots.
 
@@ -551,6 +644,11 @@ def run_ief(run, rule_prefix, roots, triage=None, noreturn=(), exclude_modules=(
         for (kind, what), (node, msg) in sorted(dedup.items()):
             key = '%s::%s::%s:%s' % (f.rel, f.short, kind, what)
             tr = triage.get((f.short, kind, what))
+            if not tr and kind == 'UNBOUND':
+                # an idiom confirmed by reading for one function (or a local function of it): the shape is checked here
+                tr = triage.get((f.short.split('.<locals>.')[0], kind, 'first-item-sentinel'))
+                if tr and not first_item_sentinel(f.node, what):
+                    tr = None
             if tr:
                 run.note(rid, 'triaged %s in %s: %s' % (what, f.short, tr), f, node)
                 run.ob(rid, key, True, 'triaged: ' + tr, fn=f, node=node)
